@@ -1149,8 +1149,8 @@ Print Assumptions C13_cjk_ndt_parse_from_str.
     NaiveDateTime with "%C%y-%m-%dT%H:%M:%S" (to the second).  The bound is exact: for EVERY negative year
     the formatter prints a signed century ("-1" "99" for year -1) which the reader's unsigned two-digit
     field refuses (Invalid); from year 10000 on the century has three digits, one more than the reader's
-    field takes (C13_date_century_wide_partial: the formatter's side for every such year; the failure
-    of the whole parse is shown on 10000-01-01 by computation, not for a symbolic year). *)
+    field takes: %C reads two of them, %y the next two, the "-" that follows meets a digit: Invalid for EVERY
+    such date (C13_date_century_wide_refused). *)
 From V Require Proofs.C13Century.
 Theorem C13_date_century_roundtrip : forall y o d items,
   Proofs.C08Sweeps.repr y o d -> 0 <= y <= 9999 -> In items Proofs.C13Century.century_items ->
@@ -1202,8 +1202,8 @@ Proof. exact Proofs.C13Century.date_century_negative_refused. Qed.
 Print Assumptions C13_date_century_negative_refused.
 
 (* PARTIAL: the formatter's side for every year >= 10000 (a century of at least three digits against the
-   reader's width 2).  Missing: the failure of the whole parse for a symbolic year >= 10000 (shown on
-   10000-01-01 in C13_century_boundary_refuted). *)
+   reader's width 2).  Missing here: the failure of the whole parse for a symbolic year >= 10000.
+   SUPERSEDED by C13_date_century_wide_refused below, which proves it for every such date. *)
 Theorem C13_date_century_wide_partial : forall y o d, Proofs.C08Sweeps.repr y o d -> 10000 <= y ->
   exists t, renders (Model.Format.fa_of_date d) (num0 N_YearDiv100) t /\
     forallb is_ascii_digit t = true /\ 3 <= blen t /\ digits_value t 0 = y / 100 /\
@@ -1339,3 +1339,59 @@ Example C13_offsets_inhabited :
     pok (Model.DateTime.mk_dtz (Model.DateTime.mk_ndt (Proofs.C08Sweeps.mkdate 2015 181) (Model.Time.mk_time 43201 0)) 3660, [58; 48; 49]).
 Proof. exact Proofs.C13Offsets.offsets_inhabited. Qed.
 Print Assumptions C13_offsets_inhabited.
+
+(* the upper bound is exact (Proofs/C13CenturyWide.v): EVERY date of a year >= 10000, the four forms *)
+From V Require Proofs.C13CenturyWide.
+Theorem C13_date_century_wide_refused : forall y o d items,
+  Proofs.C08Sweeps.repr y o d -> 10000 <= y -> In items Proofs.C13Century.century_items ->
+  exists text,
+    Model.Format.write_items (Model.Format.fa_of_date d) items [] = Model.Format.fok text /\
+    (let+ p := parse Model.Parsed.parsed_new text items in pr_of (Model.Parsed.to_naive_date p)) = Val (PErr Invalid).
+Proof. exact Proofs.C13CenturyWide.date_century_wide_refused. Qed.
+Print Assumptions C13_date_century_wide_refused.
+
+Example C13_date_century_wide_refused_inhabited :
+  Proofs.C08Sweeps.repr 10000 1 (Proofs.C08Sweeps.mkdate 10000 1) /\ 10000 <= 10000 /\
+  Proofs.C08Sweeps.repr 262142 365 (Proofs.C08Sweeps.mkdate 262142 365) /\ 10000 <= 262142 /\
+  In Proofs.C13Century.CYU_ITEMS Proofs.C13Century.century_items.
+Proof. exact Proofs.C13CenturyWide.date_century_wide_refused_inhabited. Qed.
+Print Assumptions C13_date_century_wide_refused_inhabited.
+
+(** ** the composite item Fixed::RFC3339 / the format string "%+" through parse_internal END TO END
+    (Proofs/C13Rfc.v).  The formatter arm is write_rfc3339 with SecondsFormat::AutoSi; the reader arm is
+    parse_rfc3339_relaxed (not the strict reader of C10).  For EVERY value of [valid_dtz] -- every year of
+    the range (the writer prints a sign outside 0..=9999, the relaxed reader's %Y takes it), every time of
+    day, leap second on :59 included -- the value comes back EXACTLY: AutoSi prints 0 / 3 / 6 / 9 fraction
+    digits, whichever loses nothing, and second 60 is read back with its flag.
+    Fixed::RFC2822 inside parse_internal has no end-to-end theorem: its arm is a second transcription
+    (Model.Parse.parse_rfc2822) of the function C11's theorems are about (Model.Rfc2822.parse_rfc2822);
+    Proofs/C13Rfc2822.v has the glue lemmas, the equality of the two and the writer equation are open.
+    It is covered by the never-Panic theorem above and by the correspondence run. *)
+From V Require Proofs.C13Rfc.
+Theorem C13_rfc3339_item_roundtrip : forall yu ou z, valid_dtz yu ou z ->
+  exists a text,
+    Model.Format.fa_of_dtz z = Val a /\
+    Model.Format.write_items a [IFixed F_RFC3339] [] = Model.Format.fok text /\
+    (let+ p := parse Model.Parsed.parsed_new text [IFixed F_RFC3339] in pr_of (Model.Parsed.to_datetime p)) = pok z.
+Proof. exact Proofs.C13Rfc.rfc3339_item_roundtrip. Qed.
+Print Assumptions C13_rfc3339_item_roundtrip.
+
+Theorem C13_rfc3339_parse_from_str : forall yu ou z, valid_dtz yu ou z ->
+  exists a text,
+    Model.Format.fa_of_dtz z = Val a /\
+    Model.Format.delayed_display a (Model.Strftime.sf_new Proofs.C13Rfc.rfc3339_format) = Model.Format.fok text /\
+    dt_parse_from_str text Proofs.C13Rfc.rfc3339_format = pok z.
+Proof. exact Proofs.C13Rfc.rfc3339_parse_from_str. Qed.
+Print Assumptions C13_rfc3339_parse_from_str.
+
+Example C13_rfc3339_roundtrip_inhabited :
+  valid_dtz 2016 366 (Model.DateTime.mk_dtz (Model.DateTime.mk_ndt (Proofs.C08Sweeps.mkdate 2016 366) (Model.Time.mk_time 86399 1500000000)) (-34200)) /\
+  dt_parse_from_str [50;48;49;54;45;49;50;45;51;49;84;49;52;58;50;57;58;54;48;46;53;48;48;45;48;57;58;51;48] Proofs.C13Rfc.rfc3339_format =
+    pok (Model.DateTime.mk_dtz (Model.DateTime.mk_ndt (Proofs.C08Sweeps.mkdate 2016 366) (Model.Time.mk_time 86399 1500000000)) (-34200)) /\
+  valid_dtz (-1) 1 (Model.DateTime.mk_dtz (Model.DateTime.mk_ndt (Proofs.C08Sweeps.mkdate (-1) 1) (Model.Time.mk_time 0 123456000)) 3600).
+Proof.
+  exact (conj (proj1 Proofs.C13Rfc.rfc3339_roundtrip_inhabited)
+          (conj (proj1 (proj2 Proofs.C13Rfc.rfc3339_roundtrip_inhabited))
+                (proj1 (proj2 (proj2 Proofs.C13Rfc.rfc3339_roundtrip_inhabited))))).
+Qed.
+Print Assumptions C13_rfc3339_roundtrip_inhabited.
